@@ -470,7 +470,7 @@ type genOpts struct {
 
 func drawDep(t *rapid.T, managed bool, o genOpts) pDep {
 	d := pDep{G: rapid.SampledFrom(depGroups).Draw(t, "g"), A: rapid.SampledFrom(depArtifacts).Draw(t, "a")}
-	d.V = rapid.SampledFrom([]string{"1.0", "2.0", "${v1}", "${v2}", "${v3}", "${project.version}", "", "", "[1,2)", "${project.parent.version}", "${version}", "${pom.version}", "1.${v1}"}).Draw(t, "v")
+	d.V = rapid.SampledFrom([]string{"1.0", "2.0", "${v1}", "${v2}", "${v3}", "${project.version}", "", "", "[1,2)", "${project.parent.version}", "${version}", "${pom.version}", "1.${v1}", "${project.groupId}.1"}).Draw(t, "v")
 	if managed && d.V == "" {
 		d.V = "3.0"
 	}
@@ -494,6 +494,12 @@ func drawDep(t *rapid.T, managed bool, o genOpts) pDep {
 		case 3:
 			d.Classifier = "${cp}"
 		}
+	}
+	if !o.noKeyPH && rapid.IntRange(0, 15).Draw(t, "projkey") == 0 {
+		// sibling modules are commonly declared with the project's own groupId
+		// (${project.artifactId} is a recorded finding, project-artifactid-undefined,
+		// and is left out here by construction)
+		d.G = "${project.groupId}"
 	}
 	d.Scope = rapid.SampledFrom([]string{"", "", "", "compile", "test", "provided", "runtime", "${sc}", "${depScope}"}).Draw(t, "scope")
 	d.Optional = rapid.SampledFrom([]string{"", "", "", "true", "false", "${opt}", "${isOpt}"}).Draw(t, "optional")
@@ -551,7 +557,7 @@ func drawProps(t *rapid.T, max int) [][2]string {
 		case "sc", "depScope":
 			v = rapid.SampledFrom([]string{"test", "runtime", "provided", "compile"}).Draw(t, "pv")
 		case "opt", "isOpt":
-			v = rapid.SampledFrom([]string{"true", "false"}).Draw(t, "pv")
+			v = rapid.SampledFrom([]string{"true", "false", "true", "false", "TRUE", "False"}).Draw(t, "pv")
 		default:
 			v = rapid.SampledFrom([]string{"1.1", "3.0", "4.5", "${v2}", "${v3}", "${project.version}", "${project.parent.version}", "${version}", "${project.groupId}", " 5.0 ", "${v3}-x"}).Draw(t, "pv")
 			// no property cycles in lineages: v1 may use v2,v3; v2 may use v3; v3 none
